@@ -134,14 +134,17 @@ Theorem C02_initial_retx_complete : forall planned layout flight n ops st' rs,
 Proof. exact flight_stays_covered. Qed.
 Print Assumptions C02_initial_retx_complete.
 
-(** The spec's frame builder is consulted only for ONE contiguous, non-empty slice of the
-    ClientHello which a QUICFrames layout fits -- never for a PING-only probe, a retransmission
-    with a gap, a slice shorter than the layout, or after a planned flight. *)
+(** The decision of MarshalInitialPacketPayload, both directions: the spec's frame builder is
+    consulted exactly for ONE contiguous, non-empty slice of the ClientHello which a QUICFrames
+    layout fits, outside a planned flight -- hence never for a PING-only probe, a retransmission
+    with a gap, a slice shorter than the layout, or after a planned flight. (A characterisation of
+    [marshal_path], the transcription of cryptoFramesFormOneRange / quicFramesLayoutFits; the tie
+    is the path check of the Retx correspondence.) *)
 Theorem C02_initial_retx_builder_precondition : forall planned layout frames,
-  marshal_path planned layout frames = Reframed ->
+  marshal_path planned layout frames = Reframed <->
   planned = false /\ 0 < total_len frames /\ contiguous frames = true /\
-  (forall l, layout = Some l -> layout_fits l (total_len frames) = true).
-Proof. exact reframed_only_one_range. Qed.
+  match layout with Some l => layout_fits l (total_len frames) = true | None => True end.
+Proof. exact reframed_iff. Qed.
 Print Assumptions C02_initial_retx_builder_precondition.
 
 (** Before the repair (legacy_rstep) a packing call erred exactly when no flight builder planned
@@ -231,10 +234,12 @@ Example C02_ex_overlap_refuted :
 Proof. exact overlap_refuted. Qed.
 Print Assumptions C02_ex_overlap_refuted.
 
-(** A gracefully closed connection's entry is removed by its own timer (no leak). *)
-Theorem C02_tombstone_expires : forall st k id,
-  route (rgstep (rgstep st (RgClose k id)) (RgExpire k id)) id = None.
-Proof. exact tombstone_expires. Qed.
+(** A gracefully closed connection's entry goes away when ITS timer fires (no leak), from any
+    state, whatever happens under other IDs and whichever other timers fire in between. *)
+Theorem C02_tombstone_expires : forall ops st k id,
+  Forall (elsewhere id) ops ->
+  route (rgstep (rgrun (rgstep st (RgClose k id)) ops) (RgExpire k id)) id = None.
+Proof. exact tombstone_expires_reachable. Qed.
 Print Assumptions C02_tombstone_expires.
 
 (** Regressions: on the history dial 1, close 1, dial 2 (same ID, e.g. the empty one) the timer
